@@ -32,10 +32,14 @@ var verifC07Instants = []time.Time{
 	time.Date(1650, 1, 1, 0, 0, 0, 0, time.UTC),
 }
 var verifC07Texts = []string{"a", "B", " b", "ab", "A ", "", "z"}
+// texts that are datetimes: in built-in notations and in the notation of --datetime-format "%b %e %Y"
+// (starting with a letter, shorter than the built-in ones); the fourth is the same day as the first
+var verifC07DateTexts = []string{"Mar 5 2020", "Jan 10 2021", "Dec 1 2019", "2020-03-05", "2012-02-03 09:18:15", "Apr 1 2020", " Feb 29 2020 "}
 var verifC07Floats = []float64{-1.5, 0, 0.25, 1e19, -1e19, 2.5e19}
 
 // Sort keys of one class per run - datetimes (also far outside the years 1678..2262), plain texts
-// (compared without regard to case and edge blanks), floats (also beyond the int64 range) - with
+// (compared without regard to case and edge blanks), floats (also beyond the int64 range), texts that are
+// datetimes in built-in notations and in a notation given with --datetime-format - with
 // NULLs, 3 rows (thorough 4): the output of ORDER BY is a permutation in which no row precedes a row
 // that csvq's own < puts before it (DESC: after it), NULLs first or last as the direction says, and
 // LIMIT 1 WITH TIES returns exactly the rows whose key equals the smallest.
@@ -43,7 +47,10 @@ func VerifC07TypedKeys() {
 	tx := verifNewTx()
 	flags := tx.Flags
 	scope := NewReferenceScope(tx)
-	class := verifChoice("class", 3)
+	class := verifChoice("class", 4)
+	if class == 3 {
+		flags.DatetimeFormat = []string{"%b %e %Y"}
+	}
 	n := verifBound(3, 4)
 	rows := make([][]value.Primary, n)
 	for i := 0; i < n; i++ {
@@ -55,6 +62,8 @@ func VerifC07TypedKeys() {
 			k = value.NewDatetime(verifC07Instants[verifChoice("instant", len(verifC07Instants))])
 		case class == 1:
 			k = value.NewString(verifC07Texts[verifChoice("text", len(verifC07Texts))])
+		case class == 3:
+			k = value.NewString(verifC07DateTexts[verifChoice("date-text", len(verifC07DateTexts))])
 		default:
 			k = value.NewFloat(verifC07Floats[verifChoice("float", len(verifC07Floats))])
 		}
